@@ -8,14 +8,14 @@ Local Open Scope char_scope.
 Definition join_sp (l : list bytes) : bytes :=
   match l with [] => [] | v :: r => v ++ List.concat (map (cons " ") r) end.
 
-Lemma join_values_false e args vs : Forall2 (fun a v => print_value e a = inl v) args vs ->
+Lemma join_values_false e args vs : Forall2 (fun a v => print_argument e a = inl v) args vs ->
   join_values e false args = inl (List.concat (map (cons " ") vs)).
 Proof.
   induction 1 as [|a v args vs Ha _ IH]; [ reflexivity | ].
   cbn [join_values]. rewrite Ha. cbn [rbind]. rewrite IH. reflexivity.
 Qed.
 
-Lemma join_values_true e args vs : Forall2 (fun a v => print_value e a = inl v) args vs ->
+Lemma join_values_true e args vs : Forall2 (fun a v => print_argument e a = inl v) args vs ->
   join_values e true args = inl (join_sp vs).
 Proof.
   destruct 1 as [|a v args vs Ha H]; [ reflexivity | ].
@@ -23,12 +23,26 @@ Proof.
 Qed.
 
 Theorem println_single_spaces_l e nl args vs : 2 <= List.length args -> find_fmt args = None ->
-  Forall2 (fun a v => print_value e a = inl v) args vs ->
+  Forall2 (fun a v => print_argument e a = inl v) args vs ->
   stmt_out e (SPrint nl args) = inl (join_sp vs ++ (if nl then ["010"] else [])).
 Proof.
   intros Hlen Hf H. unfold stmt_out, print_multiple.
   destruct args as [|a [|b r]]; try (cbn in Hlen; lia).
   rewrite Hf. rewrite (join_values_true e _ vs H). reflexivity.
+Qed.
+
+(* a plain string literal contributes its escape-processed text, alone or among several arguments *)
+Theorem println_literal_uniform_l e nl s rest vs : has_interpolation s = false -> rest <> [] ->
+  find_fmt (AQuoted s :: rest) = None ->
+  Forall2 (fun a v => print_argument e a = inl v) rest vs ->
+  stmt_out e (SPrint nl [AQuoted s]) = inl (cstr (process_escape s) ++ (if nl then ["010"] else [])) /\
+  stmt_out e (SPrint nl (AQuoted s :: rest)) =
+    inl (join_sp (cstr (process_escape s) :: vs) ++ (if nl then ["010"] else [])).
+Proof.
+  intros Hi Hr Hf H. split.
+  - unfold stmt_out, print_multiple, print_argument. rewrite Hi. reflexivity.
+  - apply println_single_spaces_l; [ destruct rest; [ congruence | cbn; lia ] | exact Hf | ].
+    constructor; [ | exact H ]. unfold print_argument. rewrite Hi. reflexivity.
 Qed.
 
 (* arguments that are not string literals never start the printf path *)
@@ -60,7 +74,7 @@ Qed.
    rendered format with the arguments after it *)
 Theorem println_format_path_l e nl pre f post vs fa out :
   find_fmt (pre ++ AQuoted f :: post) = Some (pre, f, post) -> 2 <= List.length (pre ++ AQuoted f :: post) ->
-  Forall2 (fun a v => print_value e a = inl v) pre vs ->
+  Forall2 (fun a v => print_argument e a = inl v) pre vs ->
   collect e post = inl fa -> render f fa = Some out ->
   stmt_out e (SPrint nl (pre ++ AQuoted f :: post)) =
   inl (List.concat (map (fun v => v ++ [" "]) vs) ++ cstr out ++ (if nl then ["010"] else [])).
